@@ -24,7 +24,6 @@
 //!    RocksDB indexer answers capacity 0; the documentation allows null without saying when,
 //!    so both are accepted (probe `capacity_null_for_empty_set`).
 
-use crate::Domains;
 use crate::backend::Backend;
 use crate::model::*;
 use crate::oracle::*;
@@ -217,9 +216,10 @@ fn canonical_runs(rows: &[RowAns]) -> Vec<RowAns> {
     out
 }
 
-/// Input domain of the repeating cursor of ungrouped get_transactions: a client that pages
-/// through `groups` with `limit` gets a page that starts inside a transaction (some of its rows
-/// were on the page before) and lies entirely inside that same transaction.
+/// The paging situation in which the cursor of ungrouped get_transactions did not advance before
+/// fix 8a6319f: a client that pages through `groups` with `limit` gets a page that starts inside a
+/// transaction (some of its rows were on the page before) and lies entirely inside that same
+/// transaction. Only used to name a mismatch precisely and to count how often it is reached.
 pub fn in_txs_cursor_domain(groups: &[Vec<RowAns>], limit: usize) -> bool {
     let flat: Vec<&H32> = groups.iter().flatten().map(|r| &r.0).collect();
     let mut s = limit;
@@ -239,7 +239,7 @@ fn note_mode(q: &QuerySpec, n: usize, probes: &mut Counters) {
     }
 }
 
-pub fn check_query_rich(handle: &Backend, q: &QuerySpec, st: &MState, tip: Option<(u64, H32)>, probes: &mut Counters, dom: Domains) -> Result<String, Fail> {
+pub fn check_query_rich(handle: &Backend, q: &QuerySpec, st: &MState, tip: Option<(u64, H32)>, probes: &mut Counters) -> Result<String, Fail> {
     let api_name = match q.api.as_str() {
         "cells" => "get_cells",
         "capacity" => "get_cells_capacity",
@@ -251,19 +251,7 @@ pub fn check_query_rich(handle: &Backend, q: &QuerySpec, st: &MState, tip: Optio
     let exp_groups = if is_tx { naive_groups(st, q, Variant::Spec, &mut hits) } else { Vec::new() };
     let ff_domain = in_all_ff_prefix_domain(q);
 
-    // the main part stays out of the input domain of the repeating ungrouped cursor
-    let mut q_eff = q.clone();
-    let mut cursor_domain = false;
-    if q.api == "txs" && q.limit > 0 && in_txs_cursor_domain(&exp_groups, q.limit as usize) {
-        if dom.rich_txs_cursor_within_tx {
-            cursor_domain = true;
-            probes.inc("txs_cursor_domain_entered");
-        } else {
-            q_eff.limit = 10_000;
-            probes.inc("txs_cursor_domain_avoided_by_raising_limit");
-        }
-    }
-    let q = &q_eff;
+    let cursor_domain = q.api == "txs" && q.limit > 0 && in_txs_cursor_domain(&exp_groups, q.limit as usize);
     let limit = q.limit.max(1) as usize;
     let max_pages = (st.live.len() + st.rows.len()) / limit + 6;
 
@@ -335,6 +323,9 @@ pub fn check_query_rich(handle: &Backend, q: &QuerySpec, st: &MState, tip: Optio
                 return Err((class, format!("limit {}: got {} rows {} expected {} rows {}", q.limit, got.len(), fmt_rows(&got_raw), exp.len(), fmt_rows(&exp))));
             }
             check_pages(pages.iter().map(|p| p.len()).collect(), limit, exp.len(), "txs_page_size")?;
+            if cursor_domain {
+                probes.inc("txs_page_entirely_inside_a_transaction_after_offset");
+            }
             if pages.len() >= 2 {
                 probes.inc("cursor_paging_multiple_pages");
                 // a page boundary inside one transaction (the offset part of the cursor is used)
